@@ -83,7 +83,7 @@ class MultiCtl(BaseMultiCtl, Module):
                 self.future_use3,
                 self.future_use4,
                 self.future_use5,
-            ) = value[:8]
+            ) = (tuple(value) + (0,) * 8)[:8]
 
     class MappingArray(ArrayChunk):
         chnm = 0
